@@ -93,6 +93,7 @@ def read_dict(lib, entity_names):
             elif f[0] == 'V':
                 kv = dict(x.split('=', 1) for x in f[4:])
                 ents[f[1]]['inverse'].append((f[3], kv['inv_entity'], kv['inv_attr']))
+                ents[f[1]].setdefault('inverse_resolved', {})[f[3]] = kv.get('resolved', kv['inv_attr'])
         for l in d.cmd('types'):
             s = l.decode('latin1')
             m = re.match(r'T (\S+) fund=(\d+) desc=(\S*)(.*)$', s)
@@ -160,6 +161,10 @@ def compare(fam, ee, te, eg, tg, inst):
                 out.append(('attribute-aggregate/%s' % cls, '%s.%s: aggregate type %s, declared %s' % (n, an, gs, st)))
         if sorted(g['inverse']) != sorted(e['inverse']):
             out.append(('inverse-attributes', '%s: inverse %s, declared %s' % (n, g['inverse'], e['inverse'])))
+        else:
+            for iname, ient, iattr in e['inverse']:
+                if g.get('inverse_resolved', {}).get(iname, iattr) != iattr:
+                    out.append(('inverse-attribute-not-resolved', '%s.%s FOR %s: the descriptor of the inverted attribute is %s' % (n, iname, iattr, g['inverse_resolved'].get(iname))))
         gi = inst.get(n)
         if isinstance(gi, tuple):
             out.append(('instance-crash/%s/%s' % gi[1], 'creating an instance of %s crashes: %s' % (n, gi[1])))
@@ -390,6 +395,8 @@ def family_V():
     sch = smodel.Schema('fam_v', [smodel.TypeDecl('class_t', ('enum', ['new', 'delete', 'int']))], [
         smodel.Entity('owner', [smodel.Attr('nm', S('STRING'))], inverse=[smodel.Inverse('items', 'item', 'own', 'SET', 0, None), smodel.Inverse('single', 'item2', 'own2')]),
         smodel.Entity('item', [smodel.Attr('own', N('owner'))]),
+        smodel.Entity('doc', [smodel.Attr('title', S('STRING'))], inverse=[smodel.Inverse('approved_by', 'approval', 'of_doc'), smodel.Inverse('second_by', 'approval', 'also_doc')]),
+        smodel.Entity('approval', [smodel.Attr('of_doc', N('doc')), smodel.Attr('also_doc', N('doc'))]),
         smodel.Entity('item2', [smodel.Attr('own2', N('owner')), smodel.Attr('others', A('LIST', 0, None, N('owner')))]),
         smodel.Entity('sub_owner', [smodel.Attr('extra', S('INTEGER'))], supers=['owner']),
         smodel.Entity('namespace', [smodel.Attr('template', N('class_t')), smodel.Attr('operator', S('INTEGER'), optional=True)]),
